@@ -175,7 +175,11 @@ def identify_object(
         elif obj_type == "directory":
             swhid = str(swhid_of_dir(path, exclude_patterns))
     elif obj_type == "origin":
-        swhid = str(swhid_of_origin(obj))
+        try:
+            swhid = str(swhid_of_origin(obj))
+        except ValueError as e:
+            # the model refuses this URL (too long, not encodable as UTF-8)
+            raise click.BadParameter("invalid origin URL %r: %s" % (obj, e))
     elif obj_type == "snapshot":
         swhid = str(swhid_of_git_repo(obj))
     else:  # shouldn't happen, due to option validation
